@@ -33,6 +33,6 @@ def extra(chk, info, res):
     # the poll methods as translated by the decision translator: which of them re-arm on every path is a theorem on the
     # regenerated functions (eco polls: eco_polls_rearm; the others re-arm or request an unconditional transition: tie theorems)
     from checks import decisions_common as _dc
-    _dc.tie(chk, ["eco_polls", "tank", "heating", "winter_filtration", "winter_swim", "swim_timed", "cover"])
+    _dc.tie(chk, ["eco_polls", "open_polls", "tank", "heating", "winter_filtration", "winter_swim", "swim_timed", "cover"])
     if res is not None:
         ac.check_intervals(chk, res, None)
